@@ -30,6 +30,58 @@ const VALUE_TOL: f64 = 1e-7;
 /// relative tolerance of par_pure vs pure (see checks/c11.py TOL_PAR)
 const PAR_TOL: f64 = 1e-8;
 
+/// run `f`, turning a panic of the code under test into an `Err(message)` (a panic is an observation, not an infrastructure failure)
+fn guard<T>(f: impl FnOnce() -> T) -> Result<T, String> {
+    std::panic::catch_unwind(std::panic::AssertUnwindSafe(f)).map_err(|e| {
+        e.downcast_ref::<&str>()
+            .map(|s| s.to_string())
+            .or_else(|| e.downcast_ref::<String>().cloned())
+            .unwrap_or_else(|| "panic".to_string())
+    })
+}
+
+/// PC-SAFT mixtures with association sites of every kind (A/B pairs and self-complementary C sites, one or several
+/// per molecule, on one or several components): the models whose Helmholtz energy contains an iterative solver that is
+/// continued in dual numbers, i.e. where "all dual number types give the same derivative" is not a syntactic fact.
+fn association_configs() -> Vec<Config> {
+    use feos::pcsaft::{PcSaft, PcSaftParameters, PcSaftRecord};
+    use feos_core::parameter::Parameter;
+    let rec = |m: f64, sigma: f64, eps: f64, kappa: f64, eps_ab: f64, na: f64, nb: f64, nc: f64| {
+        PcSaftRecord::new(m, sigma, eps, None, None, Some(kappa), Some(eps_ab), Some(na), Some(nb), Some(nc), None, None, None)
+    };
+    let inert = |m: f64, sigma: f64, eps: f64| PcSaftRecord::new(m, sigma, eps, None, None, None, None, None, None, None, None, None, None);
+    let mk = |name: &str, recs: Vec<PcSaftRecord>, t_scale: f64, core: bool| {
+        let n = recs.len();
+        Config {
+            name: name.into(),
+            model: Arc::new(ResidualModel::PcSaft(PcSaft::new(Arc::new(PcSaftParameters::from_model_records(recs).unwrap())))),
+            ncomp: n,
+            t_scale,
+            core,
+        }
+    };
+    vec![
+        // one C site on each of two components
+        mk("assoc_c_c", vec![rec(1.9, 3.3, 225.0, 0.025, 2300.0, 0.0, 0.0, 1.0), rec(2.7, 3.6, 255.0, 0.008, 1750.0, 0.0, 0.0, 1.0)], 520.0, true),
+        // two C sites + one C site
+        mk("assoc_c2_c", vec![rec(1.4, 3.1, 200.0, 0.04, 2100.0, 0.0, 0.0, 2.0), rec(3.1, 3.7, 260.0, 0.012, 1600.0, 0.0, 0.0, 1.0)], 500.0, false),
+        // A/B pair on one component, C site on the other
+        mk("assoc_ab_c", vec![rec(1.6, 3.0, 280.0, 0.035, 2500.0, 1.0, 1.0, 0.0), rec(2.2, 3.4, 240.0, 0.02, 2000.0, 0.0, 0.0, 1.0)], 560.0, true),
+        // 2B + 3B-like (two A, one B)
+        mk("assoc_2b_3b", vec![rec(1.5, 3.2, 250.0, 0.03, 2400.0, 1.0, 1.0, 0.0), rec(2.0, 3.0, 300.0, 0.04, 2200.0, 2.0, 1.0, 0.0)], 600.0, false),
+        // ternary: C, A/B, inert
+        mk("assoc_c_ab_inert", vec![rec(1.8, 3.3, 230.0, 0.02, 2250.0, 0.0, 0.0, 1.0), rec(1.7, 3.1, 270.0, 0.03, 2450.0, 1.0, 1.0, 0.0), inert(2.5, 3.8, 235.0)], 540.0, false),
+        // ternary: three components with C sites of different multiplicity
+        mk("assoc_c_c2_c", vec![rec(1.2, 3.0, 210.0, 0.03, 2000.0, 0.0, 0.0, 1.0), rec(2.1, 3.4, 245.0, 0.015, 1850.0, 0.0, 0.0, 2.0), rec(2.9, 3.7, 265.0, 0.01, 1700.0, 0.0, 0.0, 1.0)], 520.0, false),
+    ]
+}
+
+fn all_configs(full: bool) -> Vec<Config> {
+    let mut v = configs::all(full);
+    v.extend(association_configs());
+    v
+}
+
 fn mk_state(model: &Arc<ResidualModel>, s: &RState) -> St {
     State::new_nvt(
         model,
@@ -218,6 +270,33 @@ impl Oracle {
             .collect();
         let _ = writeln!(s, "  [{}].", t3.join("; "));
         s
+    }
+
+    /// (key, producing request, value, is the value the producing request's own response)
+    fn produced(&self) -> Vec<(String, Rq, f64, bool)> {
+        let mut v = vec![(Rq::Z.name(), Rq::Z, self.o0, true)];
+        for d in 0..self.nd {
+            v.push((Rq::Z.name(), Rq::F(d), self.o1[d][0], false));
+            v.push((Rq::F(d).name(), Rq::F(d), self.o1[d][1], true));
+            v.push((Rq::Z.name(), Rq::S(d), self.o2[d][0], false));
+            v.push((Rq::F(d).name(), Rq::S(d), self.o2[d][1], false));
+            v.push((Rq::M(d, d).name(), Rq::S(d), self.o2[d][2], true));
+            v.push((Rq::Z.name(), Rq::T(d), self.o3[d][0], false));
+            v.push((Rq::F(d).name(), Rq::T(d), self.o3[d][1], false));
+            v.push((Rq::M(d, d).name(), Rq::T(d), self.o3[d][2], false));
+            v.push((Rq::T(d).name(), Rq::T(d), self.o3[d][3], true));
+            for b in 0..self.nd {
+                let x = self.oh[d][b];
+                v.push((Rq::Z.name(), Rq::M(d, b), x[0], false));
+                if d != b {
+                    // for d == b the eps1 entry is overwritten by eps2 before anyone can read it
+                    v.push((Rq::F(d).name(), Rq::M(d, b), x[1], false));
+                }
+                v.push((Rq::F(b).name(), Rq::M(d, b), x[2], false));
+                v.push((Rq::M(d.min(b), d.max(b)).name(), Rq::M(d, b), x[3], true));
+            }
+        }
+        v
     }
 
     /// every value some tuple claims for a key (Debug text of the canonical key)
@@ -672,6 +751,88 @@ fn run_config(c: &Config, model_name: &str, rs: &RState, full: bool, rng: &mut R
 }
 
 // ------------------------------------------------------------------------------------------------
+// consistency of the oracle over all model families (the hypothesis of the theorems), every run
+
+/// For every configuration and a few sampled states: compute all tuples the closures of the cache can compute and compare,
+/// per key, every by-product with the value the direct request returns.  By `C11_byproduct_*_observable` a difference IS a
+/// history dependence; the witness history [producer of the by-product; direct request] is then run on the real `State`.
+fn consistency_sweep(full: bool, seed: u64, only: &Option<String>) -> Value {
+    let cfgs: Vec<Config> = all_configs(full).into_iter().filter(|c| full || c.core).collect();
+    let nstates = if full { 6 } else { 2 };
+    let mut evaluated = 0usize;
+    let mut comparisons = 0usize;
+    let mut worst = 0.0f64;
+    let mut worst_case = json!(null);
+    let mut per_config = Vec::new();
+    let mut failures: Vec<Value> = Vec::new();
+    let mut panics: Vec<Value> = Vec::new();
+    for c in &cfgs {
+        if let Some(o) = only {
+            if o != &c.name {
+                continue;
+            }
+        }
+        let mut rng = Rng(seed ^ trace::fxhash(&c.name) ^ 0x5EE9);
+        let mut cw = 0.0f64;
+        for _ in 0..nstates {
+            let rs = configs::sample_state(c, &mut rng);
+            let orc = match guard(|| oracle(&c.model, &rs)) {
+                Ok(o) => o,
+                Err(e) => {
+                    panics.push(json!({"config": c.name, "state_TVN": rs.vars(), "where": "evaluating the Helmholtz energy in dual numbers", "panic": e}));
+                    continue;
+                }
+            };
+            evaluated += 1;
+            let prod = orc.produced();
+            let mut sw = 0.0f64;
+            let mut sc: Option<(Rq, Rq, f64, f64, String)> = None;
+            for (k1, direct, y, primary) in &prod {
+                if !*primary {
+                    continue;
+                }
+                for (k2, by, x, _) in &prod {
+                    if k1 != k2 || by == direct {
+                        continue;
+                    }
+                    comparisons += 1;
+                    let d = rel_dev(*x, *y);
+                    if d > sw || (d == sw && sc.is_none()) {
+                        sw = d;
+                        sc = Some((*by, *direct, *x, *y, k1.clone()));
+                    }
+                }
+            }
+            cw = cw.max(sw);
+            if let Some((by, direct, x, y, key)) = sc {
+                let case = json!({"config": c.name, "state_TVN": rs.vars(), "key": key, "history": [by.name(), direct.name()],
+                                  "by_product_value": x, "direct_value": y, "rel_dev": if sw.is_finite() { json!(sw) } else { json!("inf") }});
+                if sw > worst {
+                    worst = sw;
+                    worst_case = case.clone();
+                }
+                if !(sw <= VALUE_TOL) && failures.len() < 5 {
+                    // replay the witness on the real State
+                    let st = mk_state(&c.model, &rs);
+                    let _ = by.issue(&st);
+                    let got = direct.issue(&st);
+                    let fresh = direct.issue(&mk_state(&c.model, &rs));
+                    let d = rel_dev(got, fresh);
+                    failures.push(json!({"model": c.name, "state_TVN": rs.vars(), "history": format!("{};{}", by.name(), direct.name()),
+                                         "request": direct.name(), "after_history": got, "fresh_state": fresh,
+                                         "rel_dev": if d.is_finite() { json!(d) } else { json!("inf") }, "reproduced_on_state": !(d <= VALUE_TOL),
+                                         "oracle": case}));
+                }
+            }
+        }
+        per_config.push(json!({"config": c.name, "worst_rel": if cw.is_finite() { json!(cw) } else { json!("inf") }}));
+    }
+    json!({"configurations": per_config.len(), "states": evaluated, "comparisons": comparisons,
+           "worst_rel": if worst.is_finite() { json!(worst) } else { json!("inf") }, "worst_case": worst_case,
+           "per_config": per_config, "failures": failures, "panics": panics})
+}
+
+// ------------------------------------------------------------------------------------------------
 // runtime support: 2-16 threads on one shared state
 
 fn stress(c: &Config, rs: &RState, alpha: &[Rq], claims: &BTreeMap<String, Vec<(String, f64)>>, rng: &mut Rng, full: bool) -> Value {
@@ -784,58 +945,158 @@ fn diagram_table(d: &PhaseDiagram<ResidualModel, 2>) -> Vec<[f64; 3]> {
         .collect()
 }
 
-/// `par_pure` vs `pure` over (model, grid, threads, chunk size).  Grids: ordinary ranges where every temperature has a
-/// converged equilibrium AND ranges starting far below the triple-point region where the point solver fails for the
-/// first temperatures (those points are skipped by both variants).  Besides the state-by-state comparison the observed
-/// results are emitted for the Coq model `ParPure.v` (point solver = table of which grid temperatures converge from
-/// scratch), which must predict the list of returned states for every chunk size.
+/// outcome of one call of `pure` / `par_pure`: the table of states, an `Err`, or a panic
+#[derive(Clone, Debug, PartialEq)]
+enum Outcome {
+    Ok(Vec<[f64; 3]>),
+    Err(String),
+    Panic(String),
+}
+impl Outcome {
+    fn kind(&self) -> &'static str {
+        match self {
+            Outcome::Ok(_) => "Ok",
+            Outcome::Err(_) => "Err",
+            Outcome::Panic(_) => "panic",
+        }
+    }
+    fn json(&self) -> Value {
+        match self {
+            Outcome::Ok(t) => json!({"Ok_T_rhoV_rhoL": t}),
+            Outcome::Err(e) => json!({"Err": e}),
+            Outcome::Panic(e) => json!({"panic": e}),
+        }
+    }
+}
+
+#[derive(Clone, Copy, Debug)]
+struct Opts {
+    max_iter: Option<usize>,
+    tol: Option<f64>,
+}
+impl Opts {
+    fn solver(&self) -> SolverOptions {
+        let mut o = SolverOptions::default();
+        if let Some(m) = self.max_iter {
+            o = o.max_iter(m);
+        }
+        if let Some(t) = self.tol {
+            o = o.tol(t);
+        }
+        o
+    }
+    fn is_default(&self) -> bool {
+        self.max_iter.is_none() && self.tol.is_none()
+    }
+    fn json(&self) -> Value {
+        json!({"max_iter": self.max_iter, "tol": self.tol})
+    }
+}
+
+fn call_pure(eos: &Arc<ResidualModel>, tmin: Temperature, np: usize, guess: Option<Temperature>, o: Opts) -> Outcome {
+    match guard(|| PhaseDiagram::pure(eos, tmin, np, guess, o.solver())) {
+        Ok(Ok(d)) => Outcome::Ok(diagram_table(&d)),
+        Ok(Err(e)) => Outcome::Err(format!("{e}")),
+        Err(p) => Outcome::Panic(p),
+    }
+}
+fn call_par(eos: &Arc<ResidualModel>, tmin: Temperature, np: usize, k: usize, nt: usize, guess: Option<Temperature>, o: Opts) -> Outcome {
+    match guard(|| {
+        let pool = rayon::ThreadPoolBuilder::new().num_threads(nt).build().unwrap();
+        PhaseDiagram::par_pure(eos, tmin, np, k, pool, guess, o.solver())
+    }) {
+        Ok(Ok(d)) => Outcome::Ok(diagram_table(&d)),
+        Ok(Err(e)) => Outcome::Err(format!("{e}")),
+        Err(p) => Outcome::Panic(p),
+    }
+}
+
+/// `par_pure` vs `pure` over (model, grid, threads, chunk size, solver options, initial critical temperature).
+/// Grids: ordinary ranges where every temperature has a converged equilibrium AND ranges starting far below the
+/// triple-point region where the point solver fails for the first temperatures (skipped by both variants).
+/// With the default options the two variants are compared state by state and the observed results are emitted for the
+/// Coq model `ParPure.v` (point solver = table of which grid temperatures converge from scratch), which must predict the
+/// list of returned states for every chunk size.  With non-default options (where convergence of a point may legitimately
+/// depend on the initial guess, property C12) what `C11_par_pure_api_order` / `C11_api_same_critical_state` state without a
+/// hypothesis on the point solver is compared: same Ok/Err, same critical end state, every returned temperature on the
+/// grid built from the default-options critical point; densities at common grid points when the tolerance is the default.
 fn par_pure_runs(full: bool, rng: &mut Rng, out_dir: &str, files: &mut Vec<Value>) -> Value {
     let all = configs::all(false);
     let names: &[&str] = if full { &["pr1", "pcsaft_propane", "pcsaft_water", "pets1", "gcpcsaft_propane"] } else { &["pr1", "pcsaft_propane", "pets1"] };
     let mut runs = 0usize;
+    let mut runs_nondefault = 0usize;
     let mut states = 0usize;
     let mut grids = 0usize;
     let mut grids_with_failing_points = 0usize;
     let mut failing_points = 0usize;
+    let mut outcome_hist: BTreeMap<String, usize> = BTreeMap::new();
     let mut worst = 0.0f64;
     let mut worst_case = json!(null);
     let mut first_failure = json!(null);
-    let mut failures: Vec<Value> = Vec::new();
     let mut samples: Vec<Value> = Vec::new();
     let threads: &[usize] = if full { &[1, 2, 3, 4, 8, 16] } else { &[1, 2, 4, 16] };
-    let options = SolverOptions::default();
+    let default = Opts { max_iter: None, tol: None };
+    let variants: Vec<Opts> = vec![
+        Opts { max_iter: None, tol: Some(1e-2) },
+        Opts { max_iter: None, tol: Some(1e-5) },
+        Opts { max_iter: Some(3), tol: None },
+        Opts { max_iter: Some(8), tol: None },
+        Opts { max_iter: Some(15), tol: Some(1e-3) },
+        Opts { max_iter: Some(200), tol: Some(1e-14) },
+    ];
     for name in names {
         let c = all.iter().find(|c| &c.name == name).unwrap();
         let eos = &c.model;
-        let sc = match State::critical_point(eos, None, None, SolverOptions::default()) {
-            Ok(s) => s,
-            Err(_) => continue,
+        let tc = match guard(|| State::critical_point(eos, None, None, SolverOptions::default())) {
+            Ok(Ok(s)) => s.temperature.to_reduced(),
+            _ => continue,
         };
-        let tc = sc.temperature.to_reduced();
-        // (npoints, lowest temperature as a fraction of Tc)
-        let mut plan: Vec<(usize, f64)> = Vec::new();
+        // (npoints, lowest temperature as a fraction of Tc, options, initial critical temperature as a multiple of Tc)
+        let mut plan: Vec<(usize, f64, Opts, Option<f64>)> = Vec::new();
         let npts: Vec<usize> = if full { vec![2, 3, 4, 5, 7, 10, 17, 33, 64] } else { vec![2, 3, 5, 10, 17] };
         for &np in &npts {
-            plan.push((np, rng.range(0.55, 0.8)));
+            plan.push((np, rng.range(0.55, 0.8), default, None));
         }
         let low: Vec<usize> = if full { vec![3, 5, 8, 13, 21, 34] } else { vec![4, 9, 21] };
         for &np in &low {
-            plan.push((np, rng.range(0.02, 0.12)));
-            plan.push((np, rng.range(0.12, 0.35)));
+            plan.push((np, rng.range(0.02, 0.12), default, None));
+            plan.push((np, rng.range(0.12, 0.35), default, None));
         }
-        for (gi, &(np, frac)) in plan.iter().enumerate() {
+        // non-default solver options and initial critical temperatures
+        let nopt = if full { 3 } else { 1 };
+        for v in &variants {
+            for _ in 0..nopt {
+                let np = 2 + rng.below(if full { 20 } else { 9 });
+                let frac = if rng.f64() < 0.3 { rng.range(0.03, 0.3) } else { rng.range(0.5, 0.85) };
+                let g = match rng.below(4) {
+                    0 => None,
+                    1 => Some(rng.range(0.9, 1.3)),
+                    2 => Some(rng.range(2.0, 8.0)),
+                    _ => Some(rng.range(0.3, 0.8)),
+                };
+                plan.push((np, frac, *v, g));
+            }
+        }
+        plan.push((2 + rng.below(8), rng.range(0.5, 0.8), default, Some(rng.range(2.0, 8.0))));
+        for (gi, &(np, frac, opts, gfac)) in plan.iter().enumerate() {
             let tmin = Temperature::from_reduced(tc * frac);
-            let seq = match PhaseDiagram::pure(eos, tmin, np, None, options) {
-                Ok(d) => d,
-                Err(_) => continue,
+            let guess = gfac.map(|f| Temperature::from_reduced(tc * f));
+            let seq = call_pure(eos, tmin, np, guess, opts);
+            // the grid exactly as par_pure builds it (critical point with the DEFAULT options and the caller's initial value)
+            let sc = match guard(|| State::critical_point(eos, None, guess, SolverOptions::default())) {
+                Ok(Ok(s)) => Some(s),
+                _ => None,
             };
-            let sv = diagram_table(&seq);
-            // the grid exactly as par_pure builds it, and which of its points converge without an initial guess
-            let max_t = tmin + (sc.temperature - tmin) * ((np - 2) as f64 / (np - 1) as f64);
-            let grid: Vec<f64> = Array1::linspace(tmin.to_reduced(), max_t.to_reduced(), np - 1).to_vec();
+            let (grid, tcg): (Vec<f64>, f64) = match &sc {
+                Some(sc) => {
+                    let max_t = tmin + (sc.temperature - tmin) * ((np - 2) as f64 / (np - 1) as f64);
+                    (Array1::linspace(tmin.to_reduced(), max_t.to_reduced(), np - 1).to_vec(), sc.temperature.to_reduced())
+                }
+                None => (vec![], f64::NAN),
+            };
             let ok: Vec<bool> = grid
                 .iter()
-                .map(|t| PhaseEquilibrium::pure(eos, Temperature::from_reduced(*t), None, options).is_ok())
+                .map(|t| matches!(guard(|| PhaseEquilibrium::pure(eos, Temperature::from_reduced(*t), None, opts.solver())), Ok(Ok(_))))
                 .collect();
             let nfail = ok.iter().filter(|b| !**b).count();
             grids += 1;
@@ -843,51 +1104,102 @@ fn par_pure_runs(full: bool, rng: &mut Rng, out_dir: &str, files: &mut Vec<Value
             if nfail > 0 {
                 grids_with_failing_points += 1;
             }
-            let seq_idx: Vec<usize> = sv.iter().enumerate().map(|(i, x)| grid_index(x[0], &grid, tc, i + 1 == sv.len())).collect();
+            let idx = |t: &Vec<[f64; 3]>| -> Vec<usize> { t.iter().enumerate().map(|(i, x)| grid_index(x[0], &grid, tcg, i + 1 == t.len())).collect() };
+            let seq_idx: Vec<usize> = match &seq {
+                Outcome::Ok(t) => idx(t),
+                _ => vec![],
+            };
             let mut cs: Vec<usize> = vec![1, 2, 3, 5, np.max(1), np + 3];
             cs.push(1 + rng.below(np + 2));
             cs.sort();
             cs.dedup();
             let mut cases_coq: Vec<String> = Vec::new();
             let mut cases_json: Vec<Value> = Vec::new();
-            for &nt in threads {
+            let th: Vec<usize> = if opts.is_default() && gfac.is_none() { threads.to_vec() } else { vec![1, 3, 16] };
+            for &nt in &th {
                 for &k in &cs {
                     runs += 1;
-                    let pool = rayon::ThreadPoolBuilder::new().num_threads(nt).build().unwrap();
-                    let par = match PhaseDiagram::par_pure(eos, tmin, np, k, pool, None, options) {
-                        Ok(d) => d,
-                        Err(e) => {
-                            failures.push(json!({"config": name, "npoints": np, "chunksize": k, "threads": nt, "error": format!("{e}")}));
-                            continue;
-                        }
-                    };
-                    let pv = diagram_table(&par);
-                    states += pv.len();
-                    let par_idx: Vec<usize> = pv.iter().enumerate().map(|(i, x)| grid_index(x[0], &grid, tc, i + 1 == pv.len())).collect();
-                    cases_coq.push(format!("({}, [{}])", k, par_idx.iter().map(|i| i.to_string()).collect::<Vec<_>>().join("; ")));
-                    cases_json.push(json!({"chunksize": k, "threads": nt, "returned_grid_indices": par_idx}));
+                    if !opts.is_default() {
+                        runs_nondefault += 1;
+                    }
+                    let par = call_par(eos, tmin, np, k, nt, guess, opts);
+                    *outcome_hist.entry(format!("pure {} / par_pure {}", seq.kind(), par.kind())).or_default() += 1;
                     let mut w = 0.0f64;
-                    if pv.len() != sv.len() {
-                        w = f64::INFINITY;
-                    } else {
-                        for (a, b) in pv.iter().zip(sv.iter()) {
+                    let mut why = String::new();
+                    let mut par_idx: Vec<usize> = vec![];
+                    match (&seq, &par) {
+                        (Outcome::Ok(sv), Outcome::Ok(pv)) => {
+                            states += pv.len();
+                            par_idx = idx(pv);
+                            // same critical end state (no hypothesis on the point solver)
+                            let (ls, lp) = (sv.last().unwrap(), pv.last().unwrap());
                             for j in 0..3 {
-                                w = w.max(rel_dev(a[j], b[j]));
+                                let d = rel_dev(ls[j], lp[j]);
+                                if d > 1e-12 {
+                                    why = format!("the critical end states differ (component {j}: {} vs {})", ls[j], lp[j]);
+                                }
+                                w = w.max(if d > 1e-12 { d.max(PAR_TOL * 10.0) } else { d });
+                            }
+                            // every returned temperature lies on the grid built from the default-options critical point
+                            if sc.is_some() && (seq_idx.iter().any(|i| *i == 7777) || par_idx.iter().any(|i| *i == 7777)
+                                || seq_idx.last() != Some(&CRIT) || par_idx.last() != Some(&CRIT)) {
+                                w = f64::INFINITY;
+                                if why.is_empty() {
+                                    why = "a returned temperature is not a point of the grid built from the default-options critical point".into();
+                                }
+                            }
+                            if sc.is_none() {
+                                w = f64::INFINITY;
+                                why = "pure/par_pure succeed although the critical point with default options fails".into();
+                            }
+                            if opts.is_default() {
+                                // state by state
+                                if pv.len() != sv.len() {
+                                    w = f64::INFINITY;
+                                    if why.is_empty() {
+                                        why = format!("number of states differs: pure {} / par_pure {}", sv.len(), pv.len());
+                                    }
+                                } else {
+                                    for (a, b) in pv.iter().zip(sv.iter()) {
+                                        for j in 0..3 {
+                                            w = w.max(rel_dev(a[j], b[j]));
+                                        }
+                                    }
+                                }
+                            } else if opts.tol.is_none() {
+                                // common grid points converged to the default tolerance in both variants
+                                for (i, a) in seq_idx.iter().zip(sv.iter()) {
+                                    if let Some(p) = par_idx.iter().position(|q| q == i) {
+                                        for j in 0..3 {
+                                            w = w.max(rel_dev(a[j], pv[p][j]));
+                                        }
+                                    }
+                                }
                             }
                         }
+                        (a, b) if a.kind() == b.kind() && a.kind() == "Err" => {}
+                        (a, b) => {
+                            w = f64::INFINITY;
+                            why = format!("pure returns {} but par_pure returns {}", a.kind(), b.kind());
+                        }
                     }
+                    cases_coq.push(format!("({}, [{}])", k, par_idx.iter().map(|i| i.to_string()).collect::<Vec<_>>().join("; ")));
+                    cases_json.push(json!({"chunksize": k, "threads": nt, "returned_grid_indices": par_idx, "outcome": par.kind()}));
                     let case = json!({"config": name, "t_min": tmin.to_reduced(), "t_min_over_tc": frac, "npoints": np, "chunksize": k, "threads": nt,
-                                      "rel_dev": if w.is_finite() { json!(w) } else { json!("inf") },
-                                      "grid_points_without_converged_equilibrium": nfail, "n_seq": sv.len(), "n_par": pv.len()});
+                                      "solver_options": opts.json(), "initial_critical_temperature": guess.map(|g| g.to_reduced()),
+                                      "rel_dev": if w.is_finite() { json!(w) } else { json!("inf") }, "why": why,
+                                      "grid_points_without_converged_equilibrium": nfail,
+                                      "n_seq": if let Outcome::Ok(t) = &seq { json!(t.len()) } else { json!(null) },
+                                      "n_par": if let Outcome::Ok(t) = &par { json!(t.len()) } else { json!(null) }});
                     if w > worst {
                         worst = w;
-                        worst_case = json!({"case": case, "pure_T_rhoV_rhoL": sv, "par_pure_T_rhoV_rhoL": pv});
+                        worst_case = json!({"case": case, "pure": seq.json(), "par_pure": par.json()});
                     }
                     // the first case beyond the tolerance of the check
                     if w > PAR_TOL && first_failure.is_null() {
-                        first_failure = json!({"case": case, "pure_T_rhoV_rhoL": sv, "par_pure_T_rhoV_rhoL": pv});
+                        first_failure = json!({"case": case, "pure": seq.json(), "par_pure": par.json()});
                     }
-                    if samples.len() < 6 && nt > 1 && k > 1 && k < np && (nfail > 0) == (samples.len() % 2 == 0) {
+                    if samples.len() < 8 && nt > 1 && k > 1 && k < np && (samples.len() % 4 == 3 && !opts.is_default() || (nfail > 0) == (samples.len() % 2 == 0)) {
                         samples.push(case);
                     }
                 }
@@ -895,24 +1207,36 @@ fn par_pure_runs(full: bool, rng: &mut Rng, out_dir: &str, files: &mut Vec<Value
             // replay by the Coq model
             let fname = format!("par_{}_{}.v", name, gi);
             let mut v = String::from("From Coq Require Import List String.\nImport ListNotations.\nFrom FeosVerif Require Import ParPure.\nOpen Scope string_scope.\n");
-            let _ = writeln!(v, "(* {} : npoints {}, T_min = {} K = {:.4} T_c; grid points that converge without an initial guess *)", name, np, tmin.to_reduced(), frac);
+            let _ = writeln!(v, "(* {} : npoints {}, T_min = {} K = {:.4} T_c, solver options {}, initial critical temperature {:?} *)", name, np, tmin.to_reduced(), frac, opts.json(), guess.map(|g| g.to_reduced()));
             let _ = writeln!(v, "Definition ok : list bool := [{}].", ok.iter().map(|b| b.to_string()).collect::<Vec<_>>().join("; "));
             let _ = writeln!(v, "Definition observed_pure : list nat := [{}].", seq_idx.iter().map(|i| i.to_string()).collect::<Vec<_>>().join("; "));
             let _ = writeln!(v, "Definition cases : list (nat * list nat) := [\n  {}].", cases_coq.join(";\n  "));
             let _ = writeln!(v, "Eval vm_compute in (\"N\", List.length cases).");
-            let _ = writeln!(v, "Eval vm_compute in (\"PURE\", pure_model ok {CRIT}).");
-            let _ = writeln!(v, "Eval vm_compute in (\"PARBAD\", par_mismatches ok {CRIT} cases).");
-            let _ = writeln!(v, "Lemma model_and_implementation_agree : pure_model ok {CRIT} = observed_pure /\\ par_mismatches ok {CRIT} cases = [].\nProof. vm_compute. split; reflexivity. Qed.");
+            let strict = opts.is_default() && matches!(seq, Outcome::Ok(_));
+            if strict {
+                // grid points that converge, in order, then the critical point — for pure and for every (chunk size, pool size)
+                let _ = writeln!(v, "Eval vm_compute in (\"PURE\", pure_model ok {CRIT}).");
+                let _ = writeln!(v, "Eval vm_compute in (\"PARBAD\", par_mismatches ok {CRIT} cases).");
+                let _ = writeln!(v, "Lemma model_and_implementation_agree : pure_model ok {CRIT} = observed_pure /\\ par_mismatches ok {CRIT} cases = [].\nProof. vm_compute. split; reflexivity. Qed.");
+            } else {
+                // non-default options: both results are laid out on the same grid and end in the critical point
+                // (or both calls fail: empty lists)
+                let _ = writeln!(v, "Definition laid_out (l : list nat) : bool := match l with [] => {} | _ => on_grid (List.length ok) {CRIT} l end.", if matches!(seq, Outcome::Ok(_)) { "false" } else { "true" });
+                let _ = writeln!(v, "Eval vm_compute in (\"PURE\", observed_pure).");
+                let _ = writeln!(v, "Eval vm_compute in (\"PARBAD\", filter (fun c => negb (laid_out (snd c))) cases).");
+                let _ = writeln!(v, "Lemma model_and_implementation_agree : laid_out observed_pure = true /\\ forallb (fun c => laid_out (snd c)) cases = true.\nProof. vm_compute. split; reflexivity. Qed.");
+            }
             std::fs::write(format!("{out_dir}/{fname}"), v).unwrap();
-            files.push(json!({"file": fname, "kind": "par", "config": name, "t_min": tmin.to_reduced(), "t_min_over_tc": frac, "npoints": np,
-                              "grid": grid, "converges_without_guess": ok, "observed_pure": seq_idx, "cases": cases_json,
-                              "pure_T_rhoV_rhoL": sv}));
+            files.push(json!({"file": fname, "kind": "par", "strict": strict, "config": name, "t_min": tmin.to_reduced(), "t_min_over_tc": frac, "npoints": np,
+                              "solver_options": opts.json(), "initial_critical_temperature": guess.map(|g| g.to_reduced()),
+                              "grid": grid, "converges_without_guess": ok, "observed_pure": seq_idx, "pure_outcome": seq.kind(), "cases": cases_json,
+                              "pure": seq.json()}));
         }
     }
-    json!({"runs": runs, "states_compared": states, "grids": grids, "grids_with_failing_points": grids_with_failing_points,
-           "failing_grid_points": failing_points,
+    json!({"runs": runs, "runs_with_non_default_options": runs_nondefault, "states_compared": states, "grids": grids,
+           "grids_with_failing_points": grids_with_failing_points, "failing_grid_points": failing_points, "outcomes": outcome_hist,
            "worst_rel": if worst.is_finite() { json!(worst) } else { json!("inf") },
-           "worst_case": worst_case, "first_failure": first_failure, "errors": failures, "samples": samples})
+           "worst_case": worst_case, "first_failure": first_failure, "errors": Vec::<Value>::new(), "samples": samples})
 }
 
 // ------------------------------------------------------------------------------------------------
@@ -957,7 +1281,7 @@ fn parse_op(t: &str) -> Option<Op> {
 }
 
 fn one(model_name: &str, state: &str, history: &str, extend: bool) -> Value {
-    let all = configs::all(false);
+    let all = all_configs(true);
     let c = all.iter().find(|c| c.name == model_name).expect("config");
     let x: Vec<f64> = state.split(',').map(|t| t.trim().parse::<f64>().expect("state")).collect();
     let rs = RState { t: x[0], v: x[1], n: x[2..].to_vec() };
@@ -1021,9 +1345,9 @@ fn main() {
         return;
     }
     let full = cli.full();
-    let only = cli.opt("--only");
-    let all = configs::all(false);
-    let quick = ["pr2", "pcsaft_propane_butane_kij"];
+    let only = cli.opt("--only").or_else(|| std::env::var("FV_ONLY").ok());
+    let all = all_configs(false);
+    let quick = ["pr2", "pcsaft_propane_butane_kij", "assoc_c_c"];
     let thorough = [
         "pr2",
         "pcsaft_propane_butane_kij",
@@ -1033,10 +1357,13 @@ fn main() {
         "pr3",
         "pr1",
         "gcpcsaft_propanol_ethanol",
+        "assoc_c_c",
+        "assoc_ab_c",
     ];
     let names: Vec<&str> = if full { thorough.to_vec() } else { quick.to_vec() };
     let mut files = Vec::new();
     let mut cfgs = Vec::new();
+    let mut panics: Vec<Value> = Vec::new();
     for name in names {
         if let Some(o) = &only {
             if o != name {
@@ -1052,10 +1379,20 @@ fn main() {
             if nstates > 1 {
                 cc.name = format!("{}_s{}", c.name, si);
             }
-            cfgs.push(run_config(&cc, &c.name, &rs, full, &mut rng, &cli.out, &mut files));
+            let nfiles = files.len();
+            match guard(|| run_config(&cc, &c.name, &rs, full, &mut rng, &cli.out, &mut files)) {
+                Ok(v) => cfgs.push(v),
+                Err(e) => {
+                    // the files of a configuration that did not finish are not checked
+                    files.truncate(nfiles);
+                    panics.push(json!({"config": cc.name, "model": c.name, "state_TVN": rs.vars(), "where": "histories on State", "panic": e}));
+                }
+            }
         }
     }
+    let sweep = consistency_sweep(full, cli.seed, &only);
     let mut rng = Rng(cli.seed ^ 0x9A7);
     let pp = if cli.opt("--no-par").is_some() { json!(null) } else { par_pure_runs(full, &mut rng, &cli.out, &mut files) };
-    cli.write_impl(&json!({"property": "C11", "tier": cli.tier, "seed": cli.seed, "configs": cfgs, "files": files, "par_pure": pp}));
+    cli.write_impl(&json!({"property": "C11", "tier": cli.tier, "seed": cli.seed, "configs": cfgs, "files": files, "par_pure": pp,
+                           "consistency_sweep": sweep, "panics": panics}));
 }
